@@ -384,6 +384,11 @@ func C10(c *ev.Ctx) {
 			}
 			add(k, 6+rr.IntN(20), n, hot)
 		}
+		if file {
+			// many distinct addresses (write-behind buffers, batching thresholds): 96 and 200 blocks
+			add(4, c.Pick(2500, 8000), 96, 96)
+			add(3, c.Pick(2500, 8000), 200, 200)
+		}
 		for i := 0; i < nLong; i++ {
 			if file {
 				add(4, c.Pick(1500, 4000), 4, 4)
